@@ -39,6 +39,10 @@ struct Params {
   // scalars: manufactured s*(t) = s0 + s1 sin(ws t); gamma(t) = g0 (1 + ga cos(gw t)); constant source q
   std::vector<double> s0, s1, ws, g0, ga, gw, q;
   bool scalar_manufactured = true;
+  // manufactured family only: the sources additionally read the in-step state (of the NEXT node), as a
+  // non-linear / coupled user term would: + kappa*(target - state).  The target stays the exact solution,
+  // and any view that is stale or bound to the wrong part of the stepper's buffer shows up as a deviation.
+  double kappa = 0.0;
   // H0 for expectation values: components h0a + x*h0b (diagonal generators and identity only)
   std::vector<std::vector<double>> h0a, h0b;
 
@@ -239,6 +243,11 @@ class Problem : public squids::SQuIDS {
     DM p = P.rho_star(ix, ir, t), src = P.drho_star(ix, ir, t);
     if (mask & COH) { DM h = P.Hm(ix, ir, t); src = src + cd(0, 1) * (h * p - p * h); }
     if (mask & NONCOH) { DM g = P.Gm(ix, ir, t); src = src + (g * p + p * g); }
+    if (P.kappa != 0) {
+      unsigned jx = (ix + 1) % nx;
+      DM cur = fm::from_comp((int)nsun, estate[jx].rho[ir].GetComponents());
+      src = src + P.kappa * (P.rho_star(jx, ir, t) - cur);
+    }
     return vec(src);
   }
   double GammaScalar(unsigned int ix, unsigned int is, double t) const override {
@@ -250,7 +259,9 @@ class Problem : public squids::SQuIDS {
     mon.term(4, ix, is, t);
     if (ix >= nx || is >= nscalars || !(mask & OSCAL)) return std::nan("");
     if (!P.scalar_manufactured) return P.q[P.ks(ix, is)];
-    return P.ds_star(ix, is, t) + ((mask & GSCAL) ? P.gam(ix, is, t) * P.s_star(ix, is, t) : 0.0);
+    double coupled = 0;
+    if (P.kappa != 0) { unsigned jx = (ix + 1) % nx; coupled = P.kappa * (P.s_star(jx, is, t) - estate[jx].scalar[is]); }
+    return P.ds_star(ix, is, t) + ((mask & GSCAL) ? P.gam(ix, is, t) * P.s_star(ix, is, t) : 0.0) + coupled;
   }
   void PreDerive(double t) override { mon.prederive(t); }
 };
